@@ -39,7 +39,7 @@ vars == <<pick, bulk, pad, ifd0at, variant, dirs, lay, at, free, phase, po, pend
 
 --------------------------------------------------------------------------------
 (* entry classes *)
-EmbCls == {"embShort", "embShort2", "embLong", "embAscii", "embByte", "fEmb"}      \* embShort2: two SHORTs fill the slot, the first is the value
+EmbCls == {"embShort", "embShort2", "embLong", "embLongAlt", "embAscii", "embByte", "fEmb"}      \* embLongAlt: a SHORT field written as LONG (what is reported is not defined, but it must not depend on the byte order)      \* embShort2: two SHORTs fill the slot, the first is the value
 PtrCls == {"exifptr", "gpsptr"}
 Kind(cls) == IF cls \in EmbCls THEN "emb" ELSE IF cls \in PtrCls THEN "ptr" ELSE IF cls = "inv" THEN "inv" ELSE "ool"
 SizeOf(cls) == CASE cls = "rat" -> 8 [] cls = "srat" -> 8 [] cls = "rat3" -> 24 [] cls = "rat4" -> 32
